@@ -529,7 +529,8 @@ def _judge_again(w, cmds, again):
 
 def _import_job(job):
     name, text, expect = job[:3]
-    ref_text = job[3] if len(job) > 3 else text      # the same script in standard spelling (pySMT extensions)
+    ref_text = job[3] if len(job) > 3 and job[3] else text      # the same script in standard spelling (pySMT extensions)
+    reserialise = job[4] if len(job) > 4 else True
     out = {"name": name, "expect": expect, "kind": None, "detail": "", "last": None}
 
     def call(w, it, f):
@@ -543,7 +544,7 @@ def _import_job(job):
         # re-serialise the command list (tree form, then let-DAG form with one printer for the whole script)
         # and read it again
         again = []
-        for dag in (False, True):
+        for dag in ((False, True) if reserialise else ()):
             try:
                 sio = it.call(ExtRef("io.StringIO"), [])
                 it.call(it.getattr(script, "serialize"), [sio], {"daggify": dag})
